@@ -56,8 +56,18 @@ func VerifC12Tables() {
 	biased := verifrt.Bool("biased")
 	seed := vSeed("seed")
 	before := verifrt.ImpureCalls()
+	stale := verifrt.Pick("stale_entries_from_previous_seed", 0, 2)
 	gen := func() *WeightedDist {
 		w := &WeightedDist{minValue: 0, maxValue: 100, biased: biased}
+		if stale > 0 {
+			// the distribution was loaded with a larger table before (Reset to a new seed)
+			w.weights = make([]float64, n+stale)
+			w.alias = make([]int, n+stale)
+			w.prob = make([]float64, n+stale)
+			for k := range w.weights {
+				w.weights[k] = verifrt.Real("stale_weight")
+			}
+		}
 		w.values = make([]int, n)
 		d, _ := drbg.NewHashDrbg(seed)
 		rng := rand.New(d)
@@ -70,9 +80,10 @@ func VerifC12Tables() {
 		return w
 	}
 	w := gen()
+	stale = 0
 	verifrt.Assert(verifrt.ImpureCalls() == before, "weights and tables are a pure function of the seed")
 	verifrt.Assert(len(w.weights) == n && len(w.alias) == n && len(w.prob) == n, "one weight / alias / prob entry per value")
-	w2 := gen()
+	w2 := gen() // a freshly created distribution with the same seed: no dependence on history
 	for k := 0; k < n; k++ {
 		verifrt.Assert(w.alias[k] >= 0 && w.alias[k] < n, "alias entries index the table")
 		verifrt.Assert(w.prob[k] >= 0 && w.prob[k] <= 1, "prob entries are probabilities")
